@@ -3,6 +3,7 @@ package main
 import (
 	"fmt"
 	"go/ast"
+	"go/printer"
 	"go/token"
 	"go/types"
 	"sort"
@@ -702,6 +703,7 @@ func (c *FnCtx) execFor(x *ast.ForStmt, st *State) []Out {
 		c.execStmt(x.Init, st)
 	}
 	bodyPos := x.Body.Lbrace + 1
+	c.runGhosts(st, fmt.Sprintf("before loop %d", ls.N), x.Pos())
 	c.checkInvariants(st, ls, "init", bodyPos)
 	mods := c.assignedVars(x.Body)
 	if x.Post != nil {
@@ -730,6 +732,7 @@ func (c *FnCtx) execFor(x *ast.ForStmt, st *State) []Out {
 		iterSt.Assume(cnd)
 		exitSt.Assume(not(cnd))
 		exitSt.path = append(exitSt.path, fmt.Sprintf("loop%d:exit", ls.N))
+		c.runGhosts(exitSt, fmt.Sprintf("after loop %d", ls.N), x.Body.Rbrace)
 		outs = append(outs, Out{exitSt, oNormal})
 	} else {
 		exitSt.dead = true
@@ -737,9 +740,11 @@ func (c *FnCtx) execFor(x *ast.ForStmt, st *State) []Out {
 	iterSt.path = append(iterSt.path, fmt.Sprintf("loop%d:iter", ls.N))
 	c.oblige(iterSt, "cover", fmt.Sprintf("loop%d.iter", ls.N), "false", c.spec.Props, "loop body reachable under the invariant")
 	c.obls[len(c.obls)-1].ExpectSat = true
+	c.runGhosts(iterSt, fmt.Sprintf("loop %d body", ls.N), bodyPos)
 	for _, o := range c.execBlock(x.Body.List, iterSt) {
 		switch o.kind {
 		case oNormal, oContinue:
+			c.runGhosts(o.st, fmt.Sprintf("loop %d end", ls.N), x.Body.Rbrace)
 			if x.Post != nil {
 				c.execStmt(x.Post, o.st)
 			}
@@ -801,6 +806,7 @@ func (c *FnCtx) execRange(x *ast.RangeStmt, st *State) []Out {
 		st.spec[binder+".n"] = Val{T: tInt(0)}
 	}
 	st.spec[binder+".coll"] = Val{T: coll}
+	c.runGhosts(st, fmt.Sprintf("before loop %d", ls.N), x.Pos())
 	c.checkInvariants(st, ls, "init", bodyPos)
 	mods := c.assignedVars(x.Body)
 	// range variables assigned by the loop header itself are not havocked here (they are bound per iteration)
@@ -837,6 +843,7 @@ func (c *FnCtx) execRange(x *ast.RangeStmt, st *State) []Out {
 		iterSt.spec[binder+".key"] = Val{T: curKey}
 	}
 	exitSt.path = append(exitSt.path, fmt.Sprintf("loop%d:exit", ls.N))
+	c.runGhosts(exitSt, fmt.Sprintf("after loop %d", ls.N), x.Body.Rbrace)
 	outs = append(outs, Out{exitSt, oNormal})
 	iterSt.path = append(iterSt.path, fmt.Sprintf("loop%d:iter", ls.N))
 	// bind key/value
@@ -874,9 +881,11 @@ func (c *FnCtx) execRange(x *ast.RangeStmt, st *State) []Out {
 	})
 	c.oblige(iterSt, "cover", fmt.Sprintf("loop%d.iter", ls.N), "false", c.spec.Props, "loop body reachable under the invariant")
 	c.obls[len(c.obls)-1].ExpectSat = true
+	c.runGhosts(iterSt, fmt.Sprintf("loop %d body", ls.N), bodyPos)
 	for _, o := range c.execBlock(x.Body.List, iterSt) {
 		switch o.kind {
 		case oNormal, oContinue:
+			c.runGhosts(o.st, fmt.Sprintf("loop %d end", ls.N), x.Body.Rbrace)
 			if isSlice {
 				o.st.spec[binder] = Val{T: Term{app("+", k.S, "1"), SInt}}
 			} else {
@@ -897,6 +906,15 @@ func (c *FnCtx) execRange(x *ast.RangeStmt, st *State) []Out {
 // ---- ghost statements ----
 
 func (c *FnCtx) runGhosts(st *State, site string, pos token.Pos) {
+	for _, u := range c.spec.Uses {
+		if u.At != site {
+			continue
+		}
+		c.guarded(st, func() { c.useLemma(st, u, pos) })
+		if st.dead {
+			return
+		}
+	}
 	for _, g := range c.spec.Ghosts {
 		if g.At != site {
 			continue
@@ -970,4 +988,62 @@ func (c *FnCtx) execGhost(st *State, g GhostStmt, pos token.Pos) {
 	}
 	loc := &Loc{Root: obj, Path: path, NilCond: "false", Ver: st.vers[obj]}
 	env.writeLoc(loc, rt, pos, false)
+}
+
+// useLemma instantiates a lemma (proved separately) at explicit arguments.
+func (c *FnCtx) useLemma(st *State, u UseSpec, pos token.Pos) {
+	call := strings.TrimSpace(u.Call)
+	k := strings.Index(call, "(")
+	if k < 0 || !strings.HasSuffix(call, ")") {
+		panic(unsupportedErr{"use needs name(args): " + call})
+	}
+	name := call[:k]
+	lem := c.eng.Contracts.Funcs[c.spec.Pkg+".lemma."+name]
+	if lem == nil {
+		panic(unsupportedErr{"unknown lemma " + name})
+	}
+	_, pnames, _, _ := specParamNames(lem.Decl)
+	args := splitTopCommas(call[k+1 : len(call)-1])
+	if len(args) != len(pnames) {
+		panic(unsupportedErr{fmt.Sprintf("lemma %s expects %d arguments", name, len(pnames))})
+	}
+	env := c.specEnvAt(st, pos)
+	names := map[string]Val{}
+	for i, a := range args {
+		v := env.evalSpecString(strings.TrimSpace(a))
+		names[pnames[i]] = Val{T: env.term(v, pos), Const: v.Const}
+	}
+	// coerce untyped constants to the declared parameter sorts
+	if lem.Decl.Type.Params != nil {
+		i := 0
+		for _, f := range lem.Decl.Type.Params.List {
+			for range f.Names {
+				if tv, err := types.Eval(c.eng.Fset, c.fi.Pkg.Types, token.NoPos, exprString2(f.Type)); err == nil {
+					names[pnames[i]] = env.coerce(names[pnames[i]], c.eng.Sorts.SortOf(tv.Type))
+				}
+				i++
+			}
+		}
+	}
+	lenv := &Env{c: c, st: st, names: names, pkg: c.fi.Pkg, foreign: true}
+	for i, r := range lem.Requires {
+		g := lenv.evalSpecBool(r)
+		lbl := r.Label
+		if lbl == "" {
+			lbl = fmt.Sprintf("r%d", i+1)
+		}
+		save := c.curPos
+		c.curPos = pos
+		c.oblige(st, "pre@lemma."+name, lbl+"@"+strings.ReplaceAll(u.At, " ", "_"), g, c.spec.Props, r.Expr)
+		c.curPos = save
+	}
+	for _, en := range lem.Ensures {
+		st.Assume(lenv.evalSpecBool(en))
+	}
+}
+
+func exprString2(e ast.Expr) string {
+	var b strings.Builder
+	printer.Fprint(&b, token.NewFileSet(), e)
+	return b.String()
 }
